@@ -15,7 +15,7 @@ LEVEL = 'exploration'
 RULE = ('full product: N in {2,3} (quick) / {2,3,4,5} states with non-degenerate energies and generic fixed overlaps; T in '
         '{8,10,12} (quick) / {8,12,16,24}; t0 = 1..T/3; every state; method {eigh, cholesky}; sort {Eigenvalue, Eigenvector '
         '(every admissible ts), None (every ts)}; vector_obs on/off (on: deviation-bounded to N<=3, T<=10); variants {exact '
-        'symmetric, non-symmetric input, one / two undefined timeslices, level crossing (non-exponential state weights)}; '
+        'symmetric, non-symmetric input, one / two undefined timeslices, level crossing (non-exponential state weights; for N>=3 also a cyclic re-ordering of three states)}; '
         'Corr.Eigenvalue projected correlator against exp(-E_n (t-t0)); prune to every Ntrunc < N; matrix pencil for k=1..3 '
         'exponentials x every admissible p x single / two data sets.  Non-trivial = every case (each checks the eigen-equation '
         'on every t > t0)')
@@ -50,6 +50,17 @@ def crossing_weights(n, t):
     if n == 1:
         return math.exp(-0.80 * t) * (1.0 + 0.5 * t * t)
     return math.exp(-ENERGIES[n] * t - 0.2 * n)
+
+
+def crossing3_weights(n, t):
+    # three states whose eigenvalue order at late times is a CYCLIC permutation of the order at early times
+    if n == 0:
+        return math.exp(-0.30 * t)
+    if n == 1:
+        return math.exp(-0.80 * t) * (1.0 + 0.5 * t * t)
+    if n == 2:
+        return math.exp(-0.25 * t) / (1.0 + 0.25 * t)
+    return math.exp(-ENERGIES[n] * t - 0.5 * n)
 
 
 def make_corr(pe, N, T, key, weights=None, antisym=0.0, undefined=()):
@@ -102,7 +113,7 @@ def build(tier, seed):
     Ts = (8, 10, 12) if tier == 'quick' else (8, 12, 16, 24)
     for N in Ns:
         for T in Ts:
-            for variant in ('exact', 'nonsym', 'undef1', 'undef2', 'crossing'):
+            for variant in ('exact', 'nonsym', 'undef1', 'undef2', 'crossing') + (('crossing3',) if N >= 3 else ()):
                 cases.append({'kind': 'gevp', 'N': N, 'T': T, 'variant': variant})
         for T in Ts[:2]:
             cases.append({'kind': 'prune', 'N': N, 'T': T})
@@ -150,7 +161,7 @@ def check_vectors(pe, acc, sub, C, G, t0, t, vecs, label, crossing=False):
 def run_gevp(pe, acc, case):
     N, T, variant = case['N'], case['T'], case['variant']
     undefined = {'undef1': (T // 2,), 'undef2': (2, T - 2)}.get(variant, ())
-    weights = crossing_weights if variant == 'crossing' else None
+    weights = crossing_weights if variant == 'crossing' else crossing3_weights if variant == 'crossing3' else None
     C = make_corr(pe, N, T, variant, weights=weights, antisym=(0.003 if variant == 'nonsym' else 0.0), undefined=undefined)
     G = {t: mean_matrix(C, t) for t in range(T) if t not in undefined}
     for t0 in range(1, T // 3 + 1):
@@ -185,7 +196,7 @@ def run_gevp(pe, acc, case):
                     acc.fail('gevp:ordering', dict(sub0, t=t), 't0=%d t=%d: eigenvalues of states 0..N-1 are not decreasing: %s' % (t0, t, lams))
                     ok = False
                     break
-                if variant != 'crossing':
+                if not variant.startswith('crossing'):
                     for n in range(N):
                         ex = math.exp(-ENERGIES[n] * (t - t0))
                         if ex > 1e-8 * math.exp(-ENERGIES[0] * (t - t0)) and not abs(lams[n] - ex) <= 1e-6 * ex:
@@ -213,7 +224,7 @@ def run_gevp(pe, acc, case):
                         lam_gap = True
                         if not parallel(vec_values(vs[n][t]), vec_values(ve[n][t]), 1e-6):
                             bad = 't0=%d t=%d state %d' % (t0, t, n)
-                if bad and variant != 'crossing':
+                if bad and not variant.startswith('crossing'):
                     acc.fail('gevp:eigh-vs-cholesky', sub0, 'eigh and cholesky vectors are not parallel at %s' % bad)
                 else:
                     acc.ok(('ec', N, T, variant, t0), True, 'eigh-vs-cholesky')
@@ -274,7 +285,7 @@ def run_gevp(pe, acc, case):
                     continue
                 acc.ok(('vs', N, T, variant, t0, method, ts), True, 'gevp-ts')
             # projected eigenvalue correlator
-            if variant != 'crossing':
+            if not variant.startswith('crossing'):
                 for n in range(N):
                     for srt, ts in (('Eigenvalue', None), ('Eigenvector', t0 + 1), ('Eigenvector', T - 2)):
                         if ts in undefined:
@@ -310,8 +321,15 @@ def run_gevp(pe, acc, case):
 def run_gevp_obs(pe, acc, case):
     """vector_obs=True: the eigenvectors carry fluctuations; the projected, normalised eigenvalue has none."""
     N, T = case['N'], case['T']
-    C = make_corr(pe, N, T, 'obs')
-    G = {t: mean_matrix(C, t) for t in range(T)}
+    for antisym in (0.0, 0.003):
+        run_gevp_obs_variant(pe, acc, dict(case, antisym=antisym), antisym)
+
+
+def run_gevp_obs_variant(pe, acc, case, antisym):
+    N, T = case['N'], case['T']
+    C = make_corr(pe, N, T, 'obs', antisym=antisym)
+    Csym = C.matrix_symmetric() if antisym else C
+    G = {t: sym(mean_matrix(C, t)) for t in range(T)}
     for t0 in (1, 2):
         for srt, ts in (('Eigenvalue', None), ('Eigenvector', t0 + 2), (None, t0 + 2)):
             sub = dict(case, t0=t0, sort=srt, ts=ts)
@@ -335,7 +353,7 @@ def run_gevp_obs(pe, acc, case):
                         break
                     # lambda = (v G(t) v)/(v G(t0) v) as an observable: exact exp(-E (t-t0)) with vanishing fluctuations
                     va = np.array(list(a), dtype=object)
-                    lam = (va @ C.content[t] @ va) / (va @ C.content[t0] @ va)
+                    lam = (va @ Csym.content[t] @ va) / (va @ Csym.content[t0] @ va)
                     ex = math.exp(-ENERGIES[n] * (t - t0))
                     if ex < 1e-6 * math.exp(-ENERGIES[0] * (t - t0)):
                         continue
@@ -352,8 +370,8 @@ def run_gevp_obs(pe, acc, case):
             if bad:
                 acc.fail('gevp-obs:identity', sub, 'N=%d T=%d t0=%d sort=%s: %s' % (N, T, t0, srt, bad))
             else:
-                acc.ok(('vobs', N, T, t0, srt), True, 'vector_obs')
-    acc.sample({'kind': 'gevp-obs', 'N': N, 'T': T})
+                acc.ok(('vobs', N, T, t0, srt, antisym), True, 'vector_obs')
+
 
 
 def run_prune(pe, acc, case):
